@@ -170,3 +170,80 @@ pub fn xz_writer_n3_fail12() {
 pub fn xz_writer_n3_fail20() {
     xz_writer::<3, 0, 20>()
 }
+
+
+/// write_index called directly with concrete sizes (a symbolic size makes the multibyte
+/// length, hence the sink offset of everything after it, symbolic: out of memory).
+fn write_index_unit<const UNPADDED: usize, const UNPACKED: usize>() {
+    let mut sink = RecSink::<16>::new();
+    let r = write_index(&mut sink, UNPADDED, UNPACKED);
+    let n = match &r {
+        Ok(n) => *n,
+        Err(_) => usize::MAX,
+    };
+    forget(r);
+    let l1 = if UNPADDED < 128 { 1 } else { 2 };
+    let l2 = if UNPACKED < 128 { 1 } else { 2 };
+    let body = 2 + l1 + l2;
+    let pad = (4 - body % 4) % 4;
+    vassert!(n == body + pad + 4, "xz index: size = indicator + count + two multibyte fields + padding to a multiple of four + CRC32");
+    vassert!(sink.len == n && !sink.overflow, "xz index: returns the number of bytes it wrote");
+    vassert!(sink.buf[0] == 0 && sink.buf[1] == 1, "xz index: indicator 0x00, one record");
+    let a = if l1 == 1 { sink.buf[2] as usize } else { ((sink.buf[2] & 0x7F) as usize) | ((sink.buf[3] as usize) << 7) };
+    let o = 2 + l1;
+    let b = if l2 == 1 { sink.buf[o] as usize } else { ((sink.buf[o] & 0x7F) as usize) | ((sink.buf[o + 1] as usize) << 7) };
+    vassert!(a == UNPADDED && b == UNPACKED, "xz index: unpadded and uncompressed sizes as minimal multibyte integers");
+    let mut q = 0;
+    while q < pad {
+        vassert!(sink.buf[body + q] == 0, "xz index: padding bytes are zero");
+        q += 1;
+    }
+    let crc = u32::from_le_bytes([sink.buf[body + pad], sink.buf[body + pad + 1], sink.buf[body + pad + 2], sink.buf[body + pad + 3]]);
+    vassert!(crc == ref_crc32(&sink.buf[0..body + pad]), "xz index: CRC32 over indicator, records and padding");
+    vcover!(true, "end_reached");
+}
+
+//@ harness props=C04 tier=quick unwind=12 unwindset=update_table:12,write_multibyte:4,RecSink.*write_all:12,ref_crc32:12 mem_gb=4 timeout=600
+//@ bound: write_index directly with unpadded size 19 and uncompressed size 3 (multibyte lengths 1 and 1)
+#[cfg_attr(kani, kani::proof)]
+#[cfg_attr(kani, kani::stub(std::fmt::format, crate::verif_common::stub_format))]
+#[cfg_attr(kani, kani::stub(std::io::Error::is_interrupted, crate::verif_common::stub_not_interrupted))]
+pub fn xz_write_index_19_3() {
+    write_index_unit::<19, 3>()
+}
+
+//@ harness props=C04 tier=quick unwind=12 unwindset=update_table:12,write_multibyte:4,RecSink.*write_all:12,ref_crc32:12 mem_gb=4 timeout=600
+//@ bound: write_index directly with unpadded size 300 and uncompressed size 5 (multibyte lengths 2 and 1)
+#[cfg_attr(kani, kani::proof)]
+#[cfg_attr(kani, kani::stub(std::fmt::format, crate::verif_common::stub_format))]
+#[cfg_attr(kani, kani::stub(std::io::Error::is_interrupted, crate::verif_common::stub_not_interrupted))]
+pub fn xz_write_index_300_5() {
+    write_index_unit::<300, 5>()
+}
+
+//@ harness props=C04 tier=quick unwind=12 unwindset=update_table:12,write_multibyte:4,RecSink.*write_all:12,ref_crc32:12 mem_gb=4 timeout=600
+//@ bound: write_index directly with unpadded size 5 and uncompressed size 300 (multibyte lengths 1 and 2)
+#[cfg_attr(kani, kani::proof)]
+#[cfg_attr(kani, kani::stub(std::fmt::format, crate::verif_common::stub_format))]
+#[cfg_attr(kani, kani::stub(std::io::Error::is_interrupted, crate::verif_common::stub_not_interrupted))]
+pub fn xz_write_index_5_300() {
+    write_index_unit::<5, 300>()
+}
+
+//@ harness props=C04 tier=quick unwind=12 unwindset=update_table:12,write_multibyte:4,RecSink.*write_all:12,ref_crc32:12 mem_gb=4 timeout=600
+//@ bound: write_index directly with unpadded size 300 and uncompressed size 300 (multibyte lengths 2 and 2)
+#[cfg_attr(kani, kani::proof)]
+#[cfg_attr(kani, kani::stub(std::fmt::format, crate::verif_common::stub_format))]
+#[cfg_attr(kani, kani::stub(std::io::Error::is_interrupted, crate::verif_common::stub_not_interrupted))]
+pub fn xz_write_index_300_300() {
+    write_index_unit::<300, 300>()
+}
+
+//@ harness props=C04 tier=quick unwind=12 unwindset=update_table:12,write_multibyte:4,RecSink.*write_all:12,ref_crc32:12 mem_gb=4 timeout=600
+//@ bound: write_index directly with unpadded size 16383 and uncompressed size 127 (multibyte lengths 2 and 1)
+#[cfg_attr(kani, kani::proof)]
+#[cfg_attr(kani, kani::stub(std::fmt::format, crate::verif_common::stub_format))]
+#[cfg_attr(kani, kani::stub(std::io::Error::is_interrupted, crate::verif_common::stub_not_interrupted))]
+pub fn xz_write_index_16383_127() {
+    write_index_unit::<16383, 127>()
+}
